@@ -87,19 +87,19 @@ Definition exp10_fx (i : Z) : res fx :=
   if (0 <=? i) && (i <? Z.of_nat (length EXP_10_I80F48))
   then Ok (nth (Z.to_nat i) EXP_10_I80F48 0) else Err EPanic.
 
-(* drift_mocks::constants::scale_drift_deposit_limit *)
-Definition scale_drift_deposit_limit (limit decimals : Z) : res fx :=
+(* drift_mocks::constants::bank_scale_drift_deposit_limit *)
+Definition bank_scale_drift_deposit_limit (limit decimals : Z) : res fx :=
   let l := of_int limit in
   if decimals =? DRIFT_SCALED_BALANCE_DECIMALS then Ok l
   else if decimals <? DRIFT_SCALED_BALANCE_DECIMALS then
     let* s := exp10_fx (DRIFT_SCALED_BALANCE_DECIMALS - decimals) in
-    ok_or (cmul l s) (E E_Drift_MathError)
+    ok_or (cmul l s) (E E_DriftMocks_MathError)
   else
     let* s := exp10_fx (decimals - DRIFT_SCALED_BALANCE_DECIMALS) in
-    ok_or (cdiv l s) (E E_Drift_MathError).
+    ok_or (cdiv l s) (E E_DriftMocks_MathError).
 
 Definition deposit_limit_fx (b : bank) : res fx :=
-  if b_asset_tag b =? ASSET_TAG_DRIFT then scale_drift_deposit_limit (b_dep_limit b) (b_decimals b)
+  if b_asset_tag b =? ASSET_TAG_DRIFT then bank_scale_drift_deposit_limit (b_dep_limit b) (b_decimals b)
   else Ok (of_int (b_dep_limit b)).
 
 (* Bank::get_remaining_deposit_capacity *)
